@@ -458,6 +458,35 @@ def check_r6(facts, rep, crate, inter):
                     rep.bad(rid, "credit-store", "%s (%s)" % (loc_str(t["loc"]), b.path), "credit overwritten by a plain store (loses concurrent grants/takes)")
 
 
+def check_r7(facts, rep, crate, takes):
+    rid = "C03.R7"
+    rep.rule(rid, "one unit of credit per Push: after a successful credit take every success path of the caller builds a Push frame "
+                  "before returning (a take without a frame leaks credit the peer will never give back)")
+    tdp = set(b.dp for b in takes)
+    n = 0
+    for b in crate.bodies:
+        if b.dp in tdp:
+            continue
+        tcalls = [bj for bj, t in b.calls() if callee(t) and ((callee(t).get("res") or callee(t)["dp"]) in tdp) and not b.blocks[bj]["cleanup"]]
+        if not tcalls:
+            continue
+        tr = Tracer(facts, b)
+        pushes = set(bj for bj, t in b.calls() if callee(t) and callee(t)["name"] in ("new_push", "new_push_owned", "new_push_vectored"))
+        for tc in tcalls:
+            # a thin wrapper that just forwards the take's result is itself a take: look through it
+            n += 1
+            rep.analysed(b)
+            where = "%s (%s)" % (loc_str(b.term(tc)["loc"]), b.path)
+            leak = credit_leak_after_take(facts, b, tr, tc, pushes)
+            if leak is None:
+                rep.ok(rid, "%s/credit-implies-push" % b.path, where, "every success path after the take builds a Push")
+            else:
+                rep.bad(rid, "%s/credit-without-push" % b.path, where,
+                        "a unit of send credit taken here can reach the end of the function without a Push frame being built "
+                        "(e.g. the empty-write early return placed after the take): the credit is never returned by the peer")
+    rep.floor(rid, "callers of the credit take", n, 1 + ("std" in crate.features) + ("tokio-io-util" in crate.features))
+
+
 def check(facts, rep, tier, cfg):
     crate = facts.crate("penguin_mux")
     if crate is None:
@@ -472,6 +501,7 @@ def check(facts, rep, tier, cfg):
     check_r3_r4(facts, rep, crate, inter)
     check_r5(facts, rep, crate, inter)
     check_r6(facts, rep, crate, inter)
+    check_r7(facts, rep, crate, takes)
 
 
 def top_roles(node):
